@@ -212,6 +212,16 @@ def tableOf (C : GBConf) (nk : Nat) (aggs : List (Key × AggItem)) (row : Row) :
   | some r => if rowEq r row then 1 else 0
   | none => 0
 
+/-! ### `SimpleGroupBy` (`execution/nodes/simple_group_by.go`) -/
+/-- `SimpleGroupBy.Run`, the node the planner uses when the trigger is ON END OF STREAM / absent: the same
+    per-record update of the aggregates (a hash map keyed by pointwise `Compare == 0` instead of a B-tree; the
+    stored key is the one that created the entry), watermarks forwarded as they come, no event-time buffer,
+    and at the end one row per entry with a zero event time.  The Go code walks the hash map in its
+    iteration order; the model lists the entries in key order and the harness sorts what the node emitted. -/
+def simpleRun (C : GBConf) (s : List Msg) : List Msg :=
+  (wms s).map Msg.wm ++
+    (aggsAfter C (recs s)).map fun e => Msg.data ⟨e.1 ++ results C.aggs e.2.cells, false, none⟩
+
 /-! ### reference semantics: batch grouping of the consolidated input -/
 /-- the records of one group -/
 def ofKey (C : GBConf) (k : Key) (rs : List Rec) : List Rec :=
